@@ -263,8 +263,25 @@ impl<'a> InputGen<'a> {
             Ctx::Map => unreachable!(),
         };
         let _ = r;
-        let kind = rng.below(7);
+        let kind = rng.below(8);
         match kind {
+            7 => {
+                // an item inside a list of bare words takes another form (path lists, word-only structs)
+                let cands: Vec<usize> = items.iter().enumerate().filter(|(_, i)| matches!(&i.kind, Kind::List(inner) if !inner.is_empty() && inner.iter().all(|x| x.kind == Kind::Word))).map(|(k, _)| k).collect();
+                if cands.is_empty() {
+                    return None;
+                }
+                let k = *rng.pick(&cands);
+                if let Kind::List(inner) = &mut items[k].kind {
+                    let j = rng.below(inner.len());
+                    inner[j].kind = match rng.below(3) {
+                        0 => Kind::Nv(Lit::Int { digits: "1".into(), text: "1".into() }),
+                        1 => Kind::Literal(Lit::Str { value: "stray".into(), raw: false }),
+                        _ => Kind::List(vec![]),
+                    };
+                }
+                Some("word-list-item-other-form")
+            }
             0 => {
                 // unknown name: a near miss of a valid name, or something unrelated
                 let base = if !outer.is_empty() && rng.chance(1, 3) {
